@@ -122,7 +122,20 @@ def run(ctx):
             sig = "aux-coord" if "not present in all datasets" in str(e) else C.errkind(e)
             ctx.violation(key + ":error:" + sig, "Preprocessor round trip raised %r on layout %s" % (e, tag), replay)
             continue
-        same_structure(ctx, key + ":roundtrip", "Preprocessor.inverse_transform_data(fit_transform(x)) on %s" % tag, obj, back, replay)
+        ok1 = same_structure(ctx, key + ":roundtrip", "Preprocessor.inverse_transform_data(fit_transform(x)) on %s" % tag, obj, back, replay)
+        # ---- 1b. projecting OTHER data (the samples in reverse order) in between must not change where the fitted values go
+        if ok1:
+            def rev(o):
+                if isinstance(o, list):
+                    return [rev(x) for x in o]
+                return o.isel({d: slice(None, None, -1) for d in sdims if d in o.dims})
+            try:
+                pp.transform(rev(obj))
+                back2 = pp.inverse_transform_data(X2)
+                same_structure(ctx, key + ":roundtrip-after-transform", "Preprocessor.inverse_transform_data(fit_transform(x)) after transform(other data) on %s" % tag,
+                               obj, back2, replay)
+            except Exception as e:
+                ctx.violation(key + ":roundtrip-after-transform:error:" + C.errkind(e), "Preprocessor.transform(other data) / inverse raised %r on layout %s" % (e, tag), replay)
         # ---- 2. the model of the stacking order (DataArray / equal-dim Dataset / list; MultiIndex dims are
         #         opaque single dims for the model)
         if lay["multiindex"] is None and not (lay["container"] == "Dataset" and lay["ds_mode"] == "different"):
